@@ -39,6 +39,13 @@ pub enum SolverKind {
     Clarabel,
     /// `solve_real_lp_problem_slow_simplex`
     Simplex,
+    /// `Microlp::new().with_mip_gap(..).with_time_limit(..)` through the builder's `Solver::solve` (options via the
+    /// builder methods instead of the `MilpOptions` struct)
+    BuilderMicrolp,
+    /// `Auto` through the builder's `Solver::solve`
+    BuilderAuto,
+    /// `Clarabel` through the builder's `Solver::solve`
+    BuilderClarabel,
     /// microlp called directly like `milp_solver.rs` does: raw status / objective / `var_value`s
     RawMilp,
     /// microlp called directly like `simplex_solver.rs::solve_real_lp_problem_micro_lp` does
@@ -51,6 +58,7 @@ impl SolverKind {
         match self {
             SolverKind::Milp => "milp", SolverKind::Auto => "auto", SolverKind::MicroLp => "microlp",
             SolverKind::Clarabel => "clarabel", SolverKind::Simplex => "simplex", SolverKind::RawMilp => "raw-milp",
+            SolverKind::BuilderMicrolp => "builder-microlp", SolverKind::BuilderAuto => "builder-auto", SolverKind::BuilderClarabel => "builder-clarabel",
             SolverKind::RawMicroLp => "raw-microlp", SolverKind::RawClarabel => "raw-clarabel",
         }
     }
@@ -324,6 +332,15 @@ fn run(kind: SolverKind, lm: &LinearModel, o: &Opts) -> Outcome {
         SolverKind::MicroLp => pack_real(lm, rooc::solve_real_lp_problem_micro_lp(lm)),
         SolverKind::Clarabel => pack_real(lm, rooc::solve_real_lp_problem_clarabel(lm)),
         SolverKind::Simplex => pack_real(lm, rooc::solve_real_lp_problem_slow_simplex(lm, if o.simplex_limit == 0 { 10000 } else { o.simplex_limit })),
+        SolverKind::BuilderMicrolp => {
+            use rooc::Solver;
+            let mut m = rooc::Microlp::new();
+            if let Some(g) = o.mip_gap_bits { m = m.with_mip_gap(f64::from_bits(g)); }
+            if let Some(ns) = o.time_limit_ns { m = m.with_time_limit(Duration::from_nanos(ns)); }
+            pack_milp(lm, m.solve(lm))
+        }
+        SolverKind::BuilderAuto => { use rooc::Solver; pack_milp(lm, rooc::Auto.solve(lm)) }
+        SolverKind::BuilderClarabel => { use rooc::Solver; pack_real(lm, rooc::Clarabel.solve(lm)) }
         SolverKind::RawMilp => raw_milp(lm, o),
         SolverKind::RawMicroLp => raw_microlp(lm),
         SolverKind::RawClarabel => raw_clarabel(lm),
